@@ -48,7 +48,7 @@ NAME = st.text(alphabet="abcXYZ019_", min_size=1, max_size=6).filter(lambda s: n
 @st.composite
 def one_game(draw):
     kind = draw(st.sampled_from(("stopping", "stopping", "stopping", "malformed")))
-    g = draw(games.stopping_games(min_inner=1, max_inner=7, max_sinks=3, dup_names=True))
+    g = draw(games.stopping_games(min_inner=1, max_inner=7, max_sinks=3, dup_names=True, zero_edges=True))
     if kind == "malformed":
         base = draw(games.any_games(min_states=2, max_states=5))
         fl = list(faults(base))
